@@ -112,6 +112,75 @@ def locals_for_run():
     return None
 
 
+def interleaved_compiles(jobs, seed, permille, options_for, share_list):
+    """Run one compile_ufl_objects per job, each in its own thread, under a cooperative
+    scheduler: a baton (one lock per thread) makes exactly one thread runnable; at every entry
+    into a function defined in the ffcx package the running thread consults the PRNG and may hand
+    the baton to another unfinished thread.  The schedule is a pure function of (seed, jobs)."""
+    import random
+    import threading
+
+    import ffcx.compiler
+
+    pkg = os.path.dirname(os.path.abspath(ffcx.__file__)) + os.sep
+    rng = random.Random(seed)
+    n = len(jobs)
+    gates = [threading.Semaphore(0) for _ in range(n)]
+    done = [False] * n
+    out = [None] * n
+    state = {"cur": 0, "switches": 0}
+
+    def pick_other(me):
+        cands = [j for j in range(n) if j != me and not done[j]]
+        return rng.choice(cands) if cands else None
+
+    def make_prof(me):
+        def prof(frame, event, arg):
+            # never while a module body runs: the thread then holds that module's import lock
+            if event == "call" and frame.f_code.co_filename.startswith(pkg) \
+                    and frame.f_code.co_name != "<module>":
+                if rng.randrange(1000) < permille:
+                    nxt = pick_other(me)
+                    if nxt is not None:
+                        state["switches"] += 1
+                        state["cur"] = nxt
+                        gates[nxt].release()
+                        if not gates[me].acquire(timeout=300):
+                            os._exit(41)  # scheduler deadlock: the history process dies, the
+                            # driver reports a harness error, never a violation
+            return None
+        return prof
+
+    def worker(me):
+        if not gates[me].acquire(timeout=600):
+            os._exit(41)
+        (req, objs, ns), lang = jobs[me]
+        sys.setprofile(make_prof(me))
+        try:
+            code, suffixes = ffcx.compiler.compile_ufl_objects(
+                objs if share_list else list(objs), options_for(req, lang), namespace="ns")
+            out[me] = (code, suffixes, None)
+        except BaseException as e:  # reported by the caller
+            import traceback
+
+            out[me] = (None, None, traceback.format_exc()[-1500:])
+        finally:
+            sys.setprofile(None)
+            done[me] = True
+            nxt = pick_other(me)
+            if nxt is not None:
+                state["cur"] = nxt
+                gates[nxt].release()
+
+    threads = [threading.Thread(target=worker, args=(i,), name=f"tcompile-{i}") for i in range(n)]
+    for t in threads:
+        t.start()
+    gates[0].release()
+    for t in threads:
+        t.join()
+    return {"out": out, "switches": state["switches"]}
+
+
 def run_scenario(scenario, _unused):
     import re
     import shutil
@@ -189,11 +258,21 @@ def run_scenario(scenario, _unused):
     def state_stamp():
         return {"mesh_id": ufl.Mesh._ufl_global_id, "objid": id(object())}
 
+    shared = {"on": False, "maps": {}}
+
     def options_for(req, lang=None):
+        """The options mapping handed to the compiler.  With ``share_options`` the caller keeps
+        one mapping per distinct option set for the whole history and passes the same object
+        to every compilation that uses these options (as ffcx.main does for several files)."""
         o = dict(req.options)
         if lang:
             o["language"] = lang
-        return ffcx.options.get_options(o)
+        if not shared["on"]:
+            return ffcx.options.get_options(o)
+        key = json.dumps(o, sort_keys=True, default=str)
+        if key not in shared["maps"]:
+            shared["maps"][key] = ffcx.options.get_options(o)
+        return shared["maps"][key]
 
     def record(kind, dname, fields, texts):
         e = {"kind": kind, "D": dname, "at": len(log)}
@@ -228,27 +307,80 @@ def run_scenario(scenario, _unused):
             slots[slot] = (req, objs, ns)
             exposed[slot] = np_state["nondefault"]
         elif kind == "compile":
-            _, slot, lang = op
+            slot, lang = op[1], op[2]
             req, objs, ns = slots[slot]
+            if len(op) > 3 and op[3]:
+                # the same objects compiled with the options of a variant of the same request
+                # (same statements): the observation belongs to that variant
+                req = R.get(op[3])
             exposed[slot] = exposed.get(slot, False) or np_state["nondefault"]
             code, suffixes = ffcx.compiler.compile_ufl_objects(
-                list(objs), options_for(req, lang), namespace="ns"
+                objs if shared["on"] else list(objs), options_for(req, lang), namespace="ns"
             )
             entry["o"] = record(
                 "text", req.name, {"lang": lang or "C", "suffixes": list(suffixes),
                                    "np_print_exposed": bool(exposed.get(slot))},
                 {f"part{i}": c for i, c in enumerate(code)},
             )
-        elif kind == "jitname":
-            _, slot = op
+        elif kind == "share_options":
+            shared["on"] = bool(op[1])
+        elif kind == "cfgfile":
+            # options delivered through $PWD/ffcx_options.json (read once per process)
+            d = tempfile.mkdtemp(prefix="cfg-", dir=scratch)
+            with open(os.path.join(d, "ffcx_options.json"), "w") as f:
+                json.dump(op[1], f)
+            os.chdir(d)
+        elif kind == "xcompile":
+            # an *earlier* compilation of other objects with the options mapping of request
+            # ``dopt`` - whatever its outcome (it may be rejected): only the outcome type is logged
+            _, slot, dopt, lang = op
             req, objs, ns = slots[slot]
+            exposed[slot] = exposed.get(slot, False) or np_state["nondefault"]
+            try:
+                ffcx.compiler.compile_ufl_objects(list(objs), options_for(R.get(dopt), lang),
+                                                  namespace="ns")
+                entry["outcome"] = "ok"
+            except (KeyboardInterrupt, SystemExit, MemoryError):
+                raise
+            except BaseException as e:
+                entry["outcome"] = type(e).__name__
+        elif kind == "tcompile":
+            # two compilations overlapping in two threads of this process, interleaved
+            # deterministically: exactly one thread runs at any time, the baton can change hands
+            # only when a function of the ffcx package is entered, and a PRNG seeded from the op
+            # decides whether it does
+            _, jobs, tseed, permille = op
+            results = interleaved_compiles(
+                [(slots[sl], lang) for sl, lang in jobs], tseed, permille, options_for, shared["on"])
+            entry["switches"] = results["switches"]
+            entry["o_multi"] = []
+            for (sl, lang), (code, suffixes, err) in zip(jobs, results["out"]):
+                exposed[sl] = exposed.get(sl, False) or np_state["nondefault"]
+                if err is not None:
+                    raise RuntimeError(f"tcompile thread failed: {err}")
+                entry["o_multi"].append(record(
+                    "text", slots[sl][0].name, {"lang": lang or "C", "suffixes": list(suffixes),
+                                               "np_print_exposed": bool(exposed.get(sl)),
+                                               "threaded": True},
+                    {f"part{i}": c for i, c in enumerate(code)}))
+        elif kind == "jitname":
+            slot = op[1]
+            kw_override = op[2] if len(op) > 2 else None
+            req, objs, ns = slots[slot]
+            if len(op) > 3 and op[3]:
+                req = R.get(op[3])  # sibling variant: same statements, other options
             exposed[slot] = exposed.get(slot, False) or np_state["nondefault"]
             seen.clear()
             fn = jit.compile_forms if req.kind == "forms" else jit.compile_expressions
             handlers_before = list(root.handlers)
             stdout_before = sys.stdout
             try:
-                fn(list(objs), options=dict(req.options), cache_dir=cache_dir, **req.jit_kwargs)
+                kw = dict(req.jit_kwargs)
+                kw.update(kw_override or {})
+                # a caller that keeps its objects also keeps its list of forms and passes the
+                # same list object again
+                fn(objs if shared["on"] else list(objs), options=dict(req.options),
+                   cache_dir=cache_dir, **kw)
                 raised = "returned"
             except StopBuild:
                 raised = "StopBuild"
